@@ -191,12 +191,12 @@ def gen(ck):
     small = list(range(-10, 11))
     red = [-10, -4, -3, -2, -1, 0, 1, 2, 3, 4, 10]
     slice_forms = [('a:b', ('a', 'b')), ('a:', ('a',)), (':b', ('b',)), (':', ())]
-    tvals = {'list': ['[]', '[7]', '[7, 8, 9]', "'xy'", '5'], 'bytearray': ["b''", "b'xy'", '[1, 2]', '[256]', '5'],
+    tvals = {'list': ['[]', '(7,)', '[7, 8, 9]', "'xy'", '5'], 'bytearray': ["b''", "b'xy'", '[1, 2]', '[256]', '5'],
              'object': ['[7, 8]', "b'xy'"]}
     slice_ops = [('sliceget', '    return s[%s]\n', BASES, None),
                  ('sliceset', '    s[%s] = t\n    return s\n', MUTABLE, tvals),
                  ('slicedel', '    del s[%s]\n    return s\n', MUTABLE, None)]
-    bound_kinds = ['Py_ssize_t', 'int', 'object'] + ([] if quick else ['long long', 'unsigned int', 'short', 'size_t'])
+    bound_kinds = ['Py_ssize_t', 'int', 'object', 'size_t'] + ([] if quick else ['long long', 'unsigned int', 'short'])
     for op, body, bases, vals in slice_ops:
         for base in bases:
             svals = base_values(ck, base, lengths, mutable_only=(op != 'sliceget'))
@@ -263,8 +263,6 @@ def gen(ck):
     tri_vals = [repr(v) for v in tri_small] + ['None']
     for op, body, bases, vals in slice_ops:
         for base in bases:
-            if op != 'sliceget' and base == 'bytearray' and quick:
-                continue
             svals = base_values(ck, base, lengths if quick else lengths[:6] + [8], mutable_only=(op != 'sliceget'),
                                 few_kinds=True)
             extra = ', t' if op == 'sliceset' else ''
@@ -365,6 +363,14 @@ def classify(f, case, exp, got):
             # typed bytearray + C index: the assigned value is converted to C `unsigned char` by the generic C-integer
             # conversion (before the index is checked) instead of by bytearray's own byte check
             return 'typed-bytearray-setitem-value-as-c-uchar'
+    if slicing and f.kind in ('size_t', 'unsigned long', 'unsigned long long') and huge:
+        # an unsigned 64-bit C bound above PY_SSIZE_T_MAX is cast to Py_ssize_t (becomes negative) instead of clipped
+        return 'unsigned-c-slice-bound-above-ssize_t-max-wraps:%s' % ('typed' if f.base != 'object' else 'untyped')
+    if f.op == 'sliceset' and f.base in ('list', 'bytearray') and (f.form == 'a:b:c' or (f.kind == 'const' and
+                                                                                           f.form.count(':') == 2)) \
+            and args and type(args[-1]).__name__ != f.base and got[0] == 'exc' and got[1] == 'TypeError':
+        # `s[a:b:c] = t` on a typed list/bytearray: the assigned value is type-tested against the type of `s`
+        return 'extended-slice-assignment-value-must-have-base-type:%s' % f.base
     feat = 'huge' if huge else 'non-index' if nonint else 'index-object' if viaobj else 'plain-int'
     same_outcome = (exp[0] == got[0] == 'ok')
     if same_outcome and exp[1] == got[1]:
